@@ -660,3 +660,92 @@ Proof.
     + destruct Henc; cbn [enc_pv]; reflexivity.
     + cbn [st_stream st_linenum st_fnl]. auto.
 Qed.
+
+(* ------------------------------------------------------------------------------------------------ *)
+(* the same theorems with the codec abstraction hidden: everything is phrased with the model's own
+   functions (py_encode, get_newline_for_type, split_lines), the only codec hypothesis is [codec_ok enc] *)
+
+Lemma encodable_of_py_encode : forall enc c bom enc0, codec_laws enc c bom enc0 ->
+  forall t x, py_encode t enc = Ok x -> exists b, enc0 t = Some b /\ x = bom ++ b.
+Proof.
+  intros enc c bom enc0 laws t x H. unfold py_encode in H. destruct (cl_lookup _ _ _ _ laws) as [canon Hlk].
+  rewrite Hlk, (cl_enc _ _ _ _ laws) in H. destruct (enc0 t) as [b|]; [|discriminate].
+  cbn in H. injection H as <-. exists b. auto.
+Qed.
+
+Theorem content_round_trip_ok :
+  forall enc, codec_ok enc ->
+  forall (s : wstate) (e t : text) (x : bytes) (lev indent : wv),
+    c_enc ascii e = Some enc -> t <> [] -> py_encode t enc = Ok x -> le_arg lev -> indent_arg indent ->
+    exists body le nl nlb y lines,
+      resolve_le lev t = (le, nl) /\ In (le, nl) GenText.newline_formats /\
+      get_newline_for_type le (Some enc) = Ok nlb /\
+      py_encode (final_text nl t) enc = Ok y /\
+      split_lines y nlb true = Ok lines /\
+      body = indent_body indent y lines /\
+      prepare_content s (CText t) indent lev (WStr e) true = Ok (body, WStr (ascii_text le)) /\
+      forall st rest, remaining (st_stream st) = body ++ rest -> (Z.of_nat (length body) <= sys_maxsize)%Z ->
+        exists st',
+          read_content st (Z.of_nat (length body)) (Some (VStr enc)) (indent_pv indent) (Some (VStr le)) false
+            = COk (PText (final_text nl t)) st' /\
+          remaining (st_stream st') = rest /\
+          st_linenum st' = (st_linenum st + Z.of_nat (length lines))%Z /\
+          st_fnl st' = st_fnl st.
+Proof.
+  intros enc [c [bom [enc0 laws]]] s e t x lev indent He Ht Hx Hle Hind.
+  destruct (encodable_of_py_encode enc c bom enc0 laws t x Hx) as [b [Hb _]].
+  destruct (content_round_trip enc c bom enc0 laws s e t b lev indent He Ht Hb Hle Hind)
+    as [body [le [nl [nlb [b' [lines [H1 [H2 [H3 [H4 [H5 [H6 [H7 H8]]]]]]]]]]]]].
+  destruct (resolve_le_ok lev t le nl Hle H1) as [Hv [Hassoc _]].
+  destruct (newline_bytes enc c bom enc0 laws le Hv) as [nlb' [N1 [_ [N3 _]]]].
+  destruct (le_values_facts le Hv) as [_ [_ [Hassoc' _]]].
+  assert (nl = nl_text le) by congruence. subst nl. rewrite H3 in N1. injection N1 as <-.
+  exists body, le, (nl_text le), nlb, (bom ++ b'), lines.
+  repeat (split; [first [assumption | apply (py_encode_laws enc c bom enc0 laws); assumption]|]).
+  exact H8.
+Qed.
+
+Inductive diff_enc_ok (enc : bytes) : wv -> Prop :=
+| dk_none : enc = B "ascii" -> diff_enc_ok enc WNone
+| dk_str : forall e, c_enc ascii e = Some enc -> diff_enc_ok enc (WStr e).
+
+Lemma ascii_bom_nil : forall c bom enc0, codec_laws (B "ascii") c bom enc0 -> bom = [].
+Proof.
+  intros c bom enc0 laws. destruct (cl_lookup _ _ _ _ laws) as [canon Hlk].
+  assert (E : lookup_codec (B "ascii") = LOk (B "ascii") ascii) by (vm_compute; reflexivity).
+  rewrite E in Hlk. injection Hlk as _ <-.
+  pose proof (cl_enc _ _ _ _ laws []) as H. cbn [c_enc ascii enc_all] in H.
+  destruct (enc0 []) as [x|]; [|discriminate]. cbn in H. injection H as H.
+  symmetry in H. apply app_eq_nil in H. apply H.
+Qed.
+
+Theorem diff_round_trip_ok :
+  forall enc, codec_ok enc ->
+  forall (s : wstate) (b : bytes) (lev encoding : wv),
+    b <> [] -> le_arg lev -> diff_enc_ok enc encoding ->
+    exists body le nlb lines,
+      In le GenText.line_endings_values /\
+      get_newline_for_type le (Some enc) = Ok nlb /\
+      (lev = WNone -> guess_line_endings_bytes b (Some enc) = Ok (le, nlb)) /\
+      (forall l, lev = WStr (ascii_text l) -> In l GenText.line_endings_values -> le = l) /\
+      body = (if bends nlb b then b else b ++ nlb) /\
+      split_lines body nlb true = Ok lines /\
+      prepare_content s (CBytes b) WNone lev encoding false = Ok (body, WStr (ascii_text le)) /\
+      forall st rest, remaining (st_stream st) = body ++ rest -> (Z.of_nat (length body) <= sys_maxsize)%Z ->
+        exists st',
+          read_content st (Z.of_nat (length body)) (enc_pv enc encoding) None (Some (VStr le)) true
+            = COk (PBytes body) st' /\
+          remaining (st_stream st') = rest /\
+          st_linenum st' = (st_linenum st + Z.of_nat (length lines))%Z /\
+          st_fnl st' = st_fnl st.
+Proof.
+  intros enc [c [bom [enc0 laws]]] s b lev encoding Hb Hle Henc.
+  assert (Harg : diff_enc_arg enc bom encoding).
+  { destruct Henc as [Ha | e He]; [|apply de_str; exact He].
+    subst enc. apply de_none; [reflexivity | apply (ascii_bom_nil c bom enc0 laws)]. }
+  destruct (diff_round_trip enc c bom enc0 laws s b lev encoding Hb Hle Harg)
+    as [body [le [nlb [lines [H1 [H2 [H3 [H4 [H5 [H6 [H7 H8]]]]]]]]]]].
+  destruct (newline_bytes enc c bom enc0 laws le H1) as [nlb' [N1 [_ [N3 _]]]].
+  rewrite H2 in N1. injection N1 as <-.
+  exists body, le, nlb, lines. repeat (split; [assumption|]). exact H8.
+Qed.
